@@ -14,6 +14,7 @@ from ural.quote import (
     safely_unquote_qsl,
     safely_unquote_fragment,
     safely_quote,
+    safely_quote_password,
     safely_quote_qsl,
     upper_quoted,
 )
@@ -87,7 +88,7 @@ def canonicalize_url(
         password = safely_unquote_auth_item(password)
 
         if quoted:
-            password = safely_quote(password)
+            password = safely_quote_password(password)
 
     if quoted:
         path = safely_quote(path)
